@@ -25,14 +25,7 @@ func init() { subs["c19-lastsig"] = c19LastSigChild }
 func c19LastSigChild(c *Ctx) {
 	h := &c19Hammer{res: &c19HResult{Rounds: c.N, Counts: map[string]int{}}, out: c.Out, rnd: c.Rnd, seen: map[string]bool{}}
 	h.flush()
-	func() {
-		defer func() {
-			if x := recover(); x != nil {
-				h.fail(0, "c19/panic", "lastSig trials panicked: "+firstLine(fmt.Sprint(x)))
-			}
-		}()
-		h.lastSigTrials(c.N)
-	}()
+	h.runRound("c19-lastsig", 0, func() { h.lastSigTrials(c.N) })
 	h.res.Completed = c.N
 	h.res.Done = true
 	h.flush()
